@@ -9,9 +9,14 @@ Anchors
   uncaught exception (traceback on stderr, status 1) this is the `error` constructor of
   `Except`: nothing after the detection site runs.
 * `flowparser.py` `_parse_block` 381-437 / `_is_end_of_block` 439-457 (block structure),
-  `_parse_row`, `_get_row_action`, `_get_row_node`, `_get_node_group_from_edge`,
-  `_parse_goto_row` (row level detection sites).
-* `contentindexparser.py` `__init__`, `_process_content_index_table`, `_process_data_sheet`,
+  `_parse_row`, `_get_row_action` (dispatch on the row type: "Unknown operation set_contact_…",
+  "Row type … not implemented"), `_get_row_node`, `_get_node_group_from_edge`, `_parse_goto_row`
+  (row level detection sites); `RowNodeGroup.add_exit` (outcome words of the edges leaving a
+  start_new_flow / call_webhook / transfer_airtime row).
+* `flowrowmodel.py` `header_name_to_field_name_with_context`: `row_type_to_main_arg[type]` for
+  the header `message_text` — a `KeyError` of the row parser for every row of unknown type.
+* `contentindexparser.py` `__init__`, `_process_content_index_table` (sheet_name count, then the
+  dispatch on the row type with its "invalid type" branch), `_process_data_sheet`,
   `_get_new_data_sheet`, `parse_all_flows`, `_parse_flow`, `map_template_arguments_to_context`.
 * `actions.py` (640 / empty text), `routers.py` (115), `nodes.py` (HTTP methods),
   `flowrowmodel.py` `list_of_pairs_to_dict`, `containers.py` `_record_uuid`,
